@@ -429,30 +429,26 @@ func (l *c14Layout) tok(t string) {
 	} else if l.prev != "" {
 		need := c14NeedSpace(l.prev, t)
 		switch {
-		case l.p(l.st.brk) && (l.depth > 0 || true):
-			if l.depth > 0 {
-				// a line break inside brackets is white space
-				l.endOfLineExtras()
+		case l.p(l.st.brk) && l.depth > 0:
+			// inside brackets a line break is white space; comment-only and blank lines may follow
+			l.endOfLineExtras()
+			l.newline()
+			for i := 0; i < 2 && l.p(l.st.comment); i++ {
+				l.write(strings.Repeat(" ", l.rnd.Intn(4)) + "# in brackets")
 				l.newline()
-				if l.fileMode || true {
-					for i := 0; i < 2 && l.p(l.st.comment); i++ {
-						l.write(strings.Repeat(" ", l.rnd.Intn(4)) + "# in brackets")
-						l.newline()
-					}
-					if l.p(l.st.blank) {
-						l.newline()
-					}
-				}
-				l.write(strings.Repeat(" ", l.rnd.Intn(9)))
-			} else {
-				// backslash continuation
-				if l.p(0.5) || need {
-					l.write(" ")
-				}
-				l.write("\\")
-				l.newline()
-				l.write(strings.Repeat(" ", l.rnd.Intn(9)))
 			}
+			if l.p(l.st.blank) {
+				l.newline()
+			}
+			l.write(strings.Repeat(" ", l.rnd.Intn(9)))
+		case l.p(l.st.brk):
+			// outside brackets: backslash continuation
+			if l.p(0.5) || need {
+				l.write(" ")
+			}
+			l.write("\\")
+			l.newline()
+			l.write(strings.Repeat(" ", l.rnd.Intn(9)))
 		case need:
 			l.write(l.blanks())
 		case l.p(l.st.noSpace):
@@ -505,6 +501,10 @@ func (l *c14Layout) run(toks []string) error {
 		switch t {
 		case "@n":
 			l.pending++
+		case "@(!":
+			l.tok("(")
+		case "@)!":
+			l.tok(")")
 		case "@(":
 			w := l.p(l.st.optParen)
 			l.parens = append(l.parens, w)
@@ -734,7 +734,7 @@ func c14Trees(args []string) error {
 	nTexts, nOK, nNodes := 0, 0, 0
 	distinct := map[string]bool{}
 	lits := map[string]obj{}
-	var samples []obj
+	samples := []obj{}
 	err = readCases(r, func(raw json.RawMessage) error {
 		var rec c14TreeRec
 		if err := json.Unmarshal(raw, &rec); err != nil {
@@ -889,6 +889,11 @@ func c14Canonical(toks []string) string {
 		case "@out", "@out?":
 			level--
 		default:
+			if t == "@(!" {
+				t = "("
+			} else if t == "@)!" {
+				t = ")"
+			}
 			if strings.HasPrefix(t, "@") {
 				continue
 			}
